@@ -80,10 +80,14 @@ func loadProgram(repo string, patterns []string, extDir string) (*Program, error
 		if spkgs[i] != nil {
 			P.SSAPkgs[p.PkgPath] = spkgs[i]
 		}
-		if len(p.GoFiles) > 0 {
+	}
+	// contract files are read for every package of the repository that is loaded,
+	// including those loaded only as dependencies of the requested packages
+	packages.Visit(pkgs, nil, func(p *packages.Package) {
+		if len(p.GoFiles) > 0 && strings.HasPrefix(filepath.Dir(p.GoFiles[0]), repo) {
 			P.PkgDirs[p.PkgPath] = filepath.Dir(p.GoFiles[0])
 		}
-	}
+	})
 	for _, sp := range prog.AllPackages() {
 		P.SSAPkgs[sp.Pkg.Path()] = sp
 		P.TypesPkgs[sp.Pkg.Path()] = sp.Pkg
